@@ -39,7 +39,8 @@ class BoolOperation(object):
             if self.done:
                 return
 
-            del self.fs[f]
+            # f may be absent if the same future was passed more than once
+            self.fs.pop(f, None)
 
             (set_result, set_exception, cancel_futures) = self.get_state_update(f)
 
